@@ -105,7 +105,7 @@ theorem r1Inv_left_of_nohead {A f h cfg s} (hh : (r1Inv A f h cfg).J s)
 
 section iter
 attribute [local spec] forInL_keeps mapM_keeps modifyRest_keeps freshUid_keeps modInstX_keeps ctxHolder_keeps getCtx_keeps setCtxVar_keeps modHeadX_keeps getCfg_keeps getAction?_keeps setAction_keeps pushEvent_keeps pushLeftEvent_keeps valueErr_keeps lookupVar_keeps attrOf_keeps evalExpr_keeps evalIn_keeps evalEmpty_keeps evalArgs_keeps
-attribute [local spec] instanceArguments_keeps flowObjOf_keeps flowStartEvent_keeps flowGetEvent_keeps actionGetEvent_keeps tempAction_keeps tempFlowObj_keeps resolveRef_keeps getEventName_keeps getEvent_keeps eventMatchingScore_keeps updateActionStatusByEvent_keeps generateUmimEvent_keeps releaseAction_keeps isReferenceActivated_keeps isChildActivated_keeps failedEvent_keeps restartActivated_keeps logActionOrIntents_keeps nameFor_keeps headScores_keeps headKeyScores_keeps labelPos_keeps pickChoice_keeps
+attribute [local spec] instanceArguments_keeps flowObjOf_keeps flowStartEvent_keeps flowGetEvent_keeps actionGetEvent_keeps tempAction_keeps tempFlowObj_keeps resolveRef_keeps getEventName_keeps getEvent_keeps eventMatchingScore_keeps updateActionStatusByEvent_keeps generateUmimEvent_keeps releaseAction_keeps isReferenceActivated_keeps deactivatesRef_keeps isChildActivated_keeps failedEvent_keeps restartActivated_keeps logActionOrIntents_keeps nameFor_keeps headScores_keeps headKeyScores_keeps labelPos_keeps pickChoice_keeps
 
 theorem getHead?_precise (I : StInv) (k : Key) :
     ⦃fun s => ⌜I.J s⌝⦄ getHead? k ⦃post⟨fun r s => ⌜I.J s ∧ r = (findInst s.ixs.ix k.1).bind (·.findHead k.2)⌝, fun _ s => ⌜I.J s⌝⟩⦄ := by
